@@ -184,6 +184,14 @@ func forEachCorpusText(c *core.Ctx, opt corpusOpt, f func(family, text string) b
 		"a = /* c */ 1", "for x { b // c\n }", "// only", "/* only */", "/* a */ /* b */", "a // c1\n// c2\nb", "x = func() { // c\n}", "if a { /* c */ } else { /* d */ }"} {
 		emit("cmt", t)
 	}
+	// comments as first / last / only statement of a block, followed by another statement
+	for _, blk := range []string{"func f() { %s }", "if a { %s }", "for a { %s }", "x = func() { %s }", "if a { 1 } else { %s }", "f(func() { %s })", "x => { %s }"} {
+		for _, in := range []string{"/* c */", "1 /* c */", "// c\n", "1 // c\n", "/* c */ 1", "/* c */\n1", "1\n/* c */", "/* c\n d */", "/* a */ /* b */", "// a\n// b\n"} {
+			for _, after := range []string{"", "\ng()", " g()", "\n// d\ng()", " /* d */ g()", "\n/* d */\ng()"} {
+				emit("cmt", strings.Replace(blk, "%s", in, 1)+after)
+			}
+		}
+	}
 	bounds = append(bounds, "comments (line, block, multi-line block) at every boundary of every <=3-statement program over 6 statements, own-line and same-line, top level and in a function body")
 	// every construct as parent x every compound construct as child x every child position (two-level trees),
 	// children written in parentheses
